@@ -133,15 +133,16 @@ class extract_visitor(NodeVisitor):
 
     def visit_While(self, node):
         # type: (ast.While) -> None
-        self.visit(node.test)
-        cur = self.flow
+        # the test is evaluated before every iteration: it sees names bound in the body
+        head = self.make_flow('while-test', [self.flow])
+        cur = self.visit_in_flow(node.test, head)
 
         body_start = self.make_flow('while', [cur])
         body = self.visit_in_flow(node.body, body_start)
-        body_start.loop(body)
+        head.loop(body)
 
         orelse = self.visit_in_flow(node.orelse,
-                                    self.make_flow('while-else', [cur, body]))
+                                    self.make_flow('while-else', [cur]))
 
         self.flow = self.make_flow('join', [orelse])
         self.flow.scope.flow = self.flow
